@@ -8,6 +8,7 @@ def c06_nontrivial(c, i):
 
 def c06_classify(c, i):
     out = []
+    out.append("family=" + ("worker+real Pipeline.In" if c[0] == "c06.pipe" else "worker"))
     mx, cut, skip, base, buf, nturns = c[1], c[2], c[3], c[4], c[5], c[6]
     out.append("mode=" + ("unlimited" if mx == "0" else ("cut" if cut == "1" else "skip")))
     out.append("turns=" + nturns)
@@ -41,14 +42,14 @@ def c06_classify(c, i):
 
 CFG = {
         "manifest": {
-            "text": "Proof: Lean theorem worker_holds (Props/C06.lean) states that for every configuration (no limit / skip / cut), start mode, base offset, content and split of the content into turns and reads the In calls of the model of worker.work satisfy SpecC06.holds - the very oracle the check evaluates on the real worker's calls; worker_turns_lines / worker_tail / worker_resume / worker_first_line_skipped / worker_skip_oversize / worker_cut_oversize / worker_cut_then_admission spell it out per clause. The model is tied to the real worker by running both on exhaustive small contents in every limit mode and on random contents on every run.",
+            "text": "Proof: Lean theorem worker_holds (Props/C06.lean) states that for every configuration (no limit / skip / cut), start mode, base offset, content and split of the content into turns and reads the In calls of the model of worker.work satisfy SpecC06.holds - the very oracle the check evaluates on the real worker's calls; worker_turns_lines / worker_tail / worker_resume / worker_first_line_skipped / worker_skip_oversize / worker_cut_oversize / worker_cut_then_admission spell it out per clause. worker_pipeline_holds: the same calls put through the model of Pipeline.In (C20's Admission model, decoder raw, same limit) deliver exactly pipeSpec (a line of exactly max bytes is not over the limit; worker and pipeline agree). The model is tied to the real worker by running both on exhaustive small contents in every limit mode and on random contents on every run.",
             "note": "Trusted: Lean kernel + the three standard axioms; fdmodel compilation; harness; os.File.Read chunking assumption. Not modelled: lz4, metadata, truncation (processEOF).",
             "technique": "Lean 4 proof (induction over reads, refinement to specLines) + differential correspondence on real temp files",
         },
         "props_modules": ["FileD.Props.C06"],
         "nontrivial": c06_nontrivial,
         "classify": c06_classify,
-        "rule": "exhaustive contents over {a,b,\\n} up to length 6 (quick) / 8 (thorough) x every buffer size x one turn and every single append point, each in 8 limit modes (off, skip 1/2, cut 1/2, shouldSkip with 0/3/3cut) up to length 5/7 and rotating through them beyond; every pair of append points up to length 4/6; a straddle stream (limits 1..9, buffers 1..limit+3, lines from under the limit to several buffers over it, 1-4 appends, resume offsets); random contents (line lengths around the limits 1/5/16/64, up to 600 bytes, buffers 1..4096); distinct = distinct case line; non-trivial = the real worker made at least one In call",
+        "rule": "exhaustive contents over {a,b,\\n} up to length 6 (quick) / 8 (thorough) x every buffer size x one turn and every single append point, each in 8 limit modes (off, skip 1/2, cut 1/2, shouldSkip with 0/3/3cut) up to length 5/7 and rotating through them beyond; every pair of append points up to length 4/6; a straddle stream (limits 1..9, buffers 1..limit+3, lines from under the limit to several buffers over it, 1-4 appends, resume offsets); random contents (line lengths around the limits 1/5/16/64, up to 600 bytes, buffers 1..4096); c06.pipe family: the real worker against the real started pipeline (decoder raw, same max_event_size / cut-off) with contents of 1-3 lines of length 1, max-1, max, max+1, 2max+1 (newline included) with and without an unterminated tail x buffers 1, max-1, max, max+1, whole content, larger x skip/cut/off, plus a random stream; distinct = distinct case line; non-trivial = the real worker made at least one In call",
         "corr_name": "Worker.turns = (*worker).work (In calls, curOffset, tail, shouldSkip)",
         "trusted_base": [
             "os.File.Read on a regular file returns the next min(len(buf), remaining) bytes and (0, EOF) at end (the case's read chunks are derived from this)",
